@@ -238,6 +238,26 @@ impl<'a> Checker<'a> {
                 _ => {}
             }
         }
+        // a failed field conversion arriving while the container already holds errors
+        let mut try_nonempty = 0;
+        for w in r.events.windows(2) {
+            if let (Event::Foreign { .. }, Event::Merge { self_: Some(_), .. }) = (&w[0], &w[1]) {
+                try_nonempty += 1;
+            }
+        }
+        self.stats.bump("probe_try_from_failure_with_nonempty_accumulator", try_nonempty);
+        // two or more failing entries handed over by one map target (same parent, key steps)
+        let mut by_parent: std::collections::HashMap<Vec<simcore::doc::Step>, u32> = std::collections::HashMap::new();
+        for e in &r.events {
+            if let Event::Merge { loc, .. } = e {
+                if let Some((simcore::doc::Step::Key(_), parent)) = loc.split_last() {
+                    *by_parent.entry(parent.to_vec()).or_insert(0) += 1;
+                }
+            }
+        }
+        if by_parent.values().any(|n| *n >= 2) {
+            self.stats.bump("probe_two_or_more_failing_entries_in_one_object", 1);
+        }
         self.stats.bump("break_answers_to_error", brk_err);
         self.stats.bump("break_answers_to_merge", brk_merge);
         self.stats.bump("LEAF-FAIL_fired", leaf_fired);
